@@ -42,6 +42,13 @@ func (g *Gen) GovStory(id string, blocks int) *Scenario {
 	for _, v := range g.vals {
 		valOwners[v] = "s" + v
 	}
+	// the third validator stakes 3: with powers 5, 4, 3 and a pass percentage of 67 a single NO of the second
+	// validator (a third of the power) decides the vote, a single NO of the third does not
+	third := po.PassPct == 67 && len(g.G.Candidates) > 0
+	if third {
+		c3 := g.G.Candidates[0]
+		evs = append(evs, ev{1, STx{Req: TxReq{Kind: "STAKE", A: A{"v": c3, "d": "s" + c3, "amt": 3}}, Path: "honest"}})
+	}
 	np := 2 + g.R.Intn(2)
 	for pi := 0; pi < np; pi++ {
 		pid := propNames[pi]
@@ -111,11 +118,18 @@ func (g *Gen) GovStory(id string, blocks int) *Scenario {
 		voteDL := fundedAt + int(po.VotingDeadline)
 		if fundedAt > 0 {
 			pattern := []int{0, 0, 1, 2, 3}[g.R.Intn(5)] // 0: pass, 1: fail, 2: undecided -> expiry, 3: mixed with give-up
+			dissenter := ""
+			if third && g.R.Intn(3) != 0 {
+				pattern, dissenter = 4, g.vals[1+g.R.Intn(2)] // 4: everybody votes, one validator says NO
+			}
 			for vi, v := range g.vals {
-				if vi >= len(g.G.Validators) && g.R.Intn(4) != 0 {
+				if pattern != 4 && vi >= len(g.G.Validators) && g.R.Intn(4) != 0 {
 					continue // candidates are rarely validators when voting starts
 				}
 				op := 1
+				if v == dissenter {
+					op = 2
+				}
 				switch pattern {
 				case 1:
 					op = 2
